@@ -539,13 +539,14 @@ type sharedVar struct {
 	nfuncs  int
 }
 type reachFacts struct {
-	api      []apiReach
-	writers  []xWriter
-	shared   []sharedVar
-	nodes    int
-	edges    int
-	exported int
-	missing  []string
+	api         []apiReach
+	writers     []xWriter
+	shared      []sharedVar
+	nodes       int
+	edges       int
+	exported    int
+	missing     []string
+	infoMethods int
 }
 
 func sortedVars(m map[*types.Var]bool) []varName {
@@ -594,6 +595,9 @@ func computeReach(g *callGraph) *reachFacts {
 	}
 	shared := map[*types.Var]*sharedVar{}
 	for _, n := range g.nodes {
+		if n.pkg == "mp4" && strings.HasSuffix(n.key, ".Info") && n.decl != nil && n.decl.Recv != nil {
+			rf.infoMethods++
+		}
 		if !n.exported {
 			continue
 		}
@@ -722,7 +726,7 @@ func renderReachCoq(rf *reachFacts) []byte {
 }
 
 func printReachTSV(rf *reachFacts) {
-	fmt.Printf("RSTATS\tnodes=%d\tedges=%d\texported=%d\n", rf.nodes, rf.edges, rf.exported)
+	fmt.Printf("RSTATS\tnodes=%d\tedges=%d\texported=%d\tinfo_methods=%d\n", rf.nodes, rf.edges, rf.exported, rf.infoMethods)
 	for _, m := range rf.missing {
 		fmt.Printf("RMISSING\t%s\n", m)
 	}
